@@ -70,6 +70,28 @@ pub fn corpus(r: &mut Rng, random_extra: usize) -> Vec<String> {
     for s in ["[]", "42", "\"error\"", "{\"error\"", "{\"error\":}", "nul", "{\"error\":\"t.err.Bad\",}", "[{\"error\":\"t.err.NotFound\"}]"] {
         v.push(s.to_string());
     }
+    // long frames (longer than one and than two growth steps of the receive buffer): an error with a long
+    // message, an unknown member of several hundred bytes in front of or behind the others
+    for (ni, n) in names.iter().enumerate() {
+        for (li, len) in [300usize, 700].iter().enumerate() {
+            let long = "m".repeat(*len);
+            let p = match (ni + li) % 4 {
+                0 => format!("{{\"code\":1,\"msg\":\"{long}\"}}"),
+                1 => format!("{{\"method\":\"{long}\"}}"),
+                2 => "null".to_string(),
+                _ => format!("{{\"s\":\"{long}\",\"i\":2}}"),
+            };
+            let pad = format!("\"x-pad\":\"{long}\"");
+            v.push(format!("{{\"error\":{n},\"parameters\":{p}}}"));
+            v.push(format!("{{{pad},\"error\":{n}}}"));
+            v.push(format!("{{\"parameters\":{p},\"error\":{n},{pad}}}"));
+        }
+    }
+    for len in [300usize, 700] {
+        let long = "m".repeat(len);
+        v.push(format!("{{\"parameters\":{{\"i\":1,\"pad\":\"{long}\"}}}}"));
+        v.push(format!("{{\"x-pad\":\"{long}\",\"parameters\":{{\"s\":\"b\",\"i\":2}},\"continues\":true}}"));
+    }
     // other spellings of the member names: blanks between the name and the colon, escapes inside the name
     // (it is the same member whatever its spelling; a text search for `"error":` does not find these)
     let error_keys = ["\"error\" :", "\"error\"\t:", "\"error\"\n : ", "\"\\u0065rror\":", "\"err\\u006fr\" :", "\"e\\u0072\\u0072or\":"];
@@ -155,13 +177,26 @@ fn one<T: Target>(
 
 macro_rules! run_target {
     ($t:ty, $frames:expr, $stats:expr) => {{
-        for f in $frames {
-            // entry point 1: receive_reply
+        for (fi, f) in $frames.enumerate() {
+            // entry point 1: receive_reply (the frame arrives whole, cut in the middle, or with its terminator
+            // in a read of its own: what it is reported as does not depend on that)
             let wire = new_wire(0);
             wire.borrow_mut().log_reads = false;
             let mut bytes = f.as_bytes().to_vec();
             bytes.push(0);
-            wire.borrow_mut().inb.push_back(Some(bytes.clone()));
+            match fi % 3 {
+                1 if bytes.len() > 2 => {
+                    let c = bytes.len() / 2;
+                    wire.borrow_mut().inb.push_back(Some(bytes[..c].to_vec()));
+                    wire.borrow_mut().inb.push_back(Some(bytes[c..].to_vec()));
+                }
+                2 if bytes.len() > 1 => {
+                    let c = bytes.len() - 1;
+                    wire.borrow_mut().inb.push_back(Some(bytes[..c].to_vec()));
+                    wire.borrow_mut().inb.push_back(Some(bytes[c..].to_vec()));
+                }
+                _ => wire.borrow_mut().inb.push_back(Some(bytes.clone())),
+            }
             wire.borrow_mut().closed = true;
             let mut conn = Connection::new(Sock(wire.clone()));
             let actual = block_on(<$t as Target>::recv(&mut conn));
